@@ -111,7 +111,7 @@ def small_profiles(tier, seed, with_withdrawn=False, with_undeclared=False, max_
         if with_withdrawn and n >= 3 and rng.random() < 0.5:
             wd = tuple(rng.sample(range(1, n + 1), rng.randint(1, n - 2)))
         if with_undeclared and n >= 3 and rng.random() < 0.5:
-            und = tuple(c for c in rng.sample(range(1, n + 1), rng.randint(1, n - 2)) if c not in wd)
+            und = tuple(c for c in rng.sample(range(1, n + 1), rng.randint(1, n - 2)) if c not in wd or rng.random() < 0.3)
         tie = None
         if rng.random() < 0.4:
             tie = list(range(1, n + 1))
@@ -277,6 +277,9 @@ def check_C01(res):
             elif c.state not in ('elected', 'defeated'):
                 res.violation('candidate %s left %s at the end of the count (%s)' % (c.name, c.state, rule), wit(data, rule, opts))
     run_counts(res, RULES, res.tier, res.seed, per, with_undeclared=False)
+    # Minneapolis with undeclared write-ins (and write-in slots that are also withdrawn)
+    run_counts(res, ['mpls'], res.tier, res.seed + 7, per, with_withdrawn=True, with_undeclared=True, grid=False,
+               time_budget=8 if res.tier == 'quick' else 120)
 
 
 def check_C09(res):
@@ -316,6 +319,8 @@ def check_C09(res):
                         res.violation('status %s -> %s for candidate %s at action %s (%s)' % (o, n, cid, a['tag'], rule), wit(data, rule, opts))
             prev = cs
     run_counts(res, RULES, res.tier, res.seed, per)
+    run_counts(res, ['mpls'], res.tier, res.seed + 7, per, with_withdrawn=True, with_undeclared=True, grid=False,
+               time_budget=8 if res.tier == 'quick' else 120)
 
 
 def units(E):
@@ -463,6 +468,34 @@ def check_C06(res):
         else:
             cont = lambda c: c.state == 'hopeful' or (c.state == 'elected' and c.pending)      # noqa
         sums = {}
+        # surplus transfer: every ballot that stood with the elected candidate is re-valued at
+        #   old value x surplus / tally, truncated after each operation at the rule's precision (Scottish: one truncation)
+        hc = None
+        if action == 'transfer' and ('urplus' in msg) and state.get('prev_votes') is not None:
+            for c in E.C:
+                if c.state == 'elected' and (msg.startswith('Surplus transferred: %s' % c.name) or msg.startswith('Transfer surplus: %s' % c.name)):
+                    hc = c
+        if hc is not None:
+            v0 = state['prev_votes'].get(hc.cid)
+            q = E.quota
+            if v0 is not None and fr(hc.vote) != fr(q):
+                res.violation('elected candidate keeps %s after the surplus transfer, quota is %s (%s)' % (hc.vote, q, rule), wit(data, rule, opts))
+            if v0 is not None:
+                s_ = v0 - q
+                for b in E.ballots:
+                    ow, otop = state['bt'].get(id(b), (None, None))
+                    if otop == hc.cid and ow is not None:
+                        exp = E.V.muldiv(ow, s_, v0, round='down') if rule == 'scotland' else (ow * s_) / v0
+                        if fr(b.weight) != fr(exp):
+                            res.violation('surplus transfer of %s: ballot value %s became %s, expected %s (= value x surplus / tally rounded down) (%s %s)' %
+                                          (hc.name, ow, b.weight, exp, rule, opts), wit(data, rule, opts))
+        elif action == 'transfer' and 'efeated' in msg:
+            for b in E.ballots:
+                ow, otop = state['bt'].get(id(b), (None, None))
+                if ow is not None and fr(b.weight) != fr(ow):
+                    res.violation('a ballot changed value (%s -> %s) during the transfer of an excluded candidate (%s)' % (ow, b.weight, rule), wit(data, rule, opts))
+        state['prev_votes'] = {c.cid: c.vote for c in E.C if c.state != 'withdrawn'}
+        state['bt'] = {id(b): (b.weight, (b.ranking[b.index] if b.index < len(b.ranking) else None)) for b in E.ballots}
         for b in E.ballots:
             w = b.weight
             key = id(b)
@@ -500,6 +533,8 @@ def check_C06(res):
                         return
                     state['cur'] = (data, rule, opts)
                     state['w'] = {}
+                    state['bt'] = {}
+                    state['prev_votes'] = None
                     try:
                         E = counted(data, rule, opts)
                     except (Timeout, ElectionProfileError, UsageError, AssertionError):
@@ -529,10 +564,13 @@ def check_C07(res):
                 single = not any(k in msg for k in ('batch', 'sure loser', 'certain loser', 'remaining', 'undeclared'))
                 if single and len(newly) == 1 and rule != 'qpq':
                     cid = newly[0]
-                    hv = {k: fr(c['vote']) for k, c in prev['cstate'].items() if c['state'] == 'hopeful'}
-                    hvV = {k: c['vote'] for k, c in prev['cstate'].items() if c['state'] == 'hopeful'}
+                    # Meek family: iterations change tallies without recording actions; the exclusion action itself still shows
+                    # the tallies and surplus the decision was taken on (the excluded candidate is zeroed after it is logged)
+                    src = a if rule in MEEK_FAMILY else prev
+                    hv = {k: fr(c['vote']) for k, c in src['cstate'].items() if c['state'] == 'hopeful' or k == cid}
+                    hvV = {k: c['vote'] for k, c in src['cstate'].items() if c['state'] == 'hopeful' or k == cid}
                     lowk = min(hv, key=lambda k: hv[k])
-                    bound = hvV[lowk] + prev['surplus'] if (rule in MEEK_FAMILY and prev.get('surplus') is not None) else hvV[lowk]
+                    bound = hvV[lowk] + src['surplus'] if (rule in MEEK_FAMILY and src.get('surplus') is not None) else hvV[lowk]
                     # compared with the arithmetic's own comparison (guarded values are equal within the tolerance)
                     if hvV[cid] > bound:
                         res.violation('excluded %s with %s while the lowest tally is %s (%s %s)' % (cid, hv[cid], min(hv.values()), rule, opts), wit(data, rule, opts))
